@@ -17,6 +17,10 @@ def run(db, res, tier):
   nw, classes = r_race.check_writes(res, scope)
   nr = r_race.check_cross_reads(res, scope)
   na = r_race.check_atomic_values(res, scope)
+  nbr = r_race.check_branch_chains(res, db)
+  res.floor("branch-chain construction clauses", nbr, 1)
+  nldl = r_race.check_ldl_level_schedule(res, db, all_lcs)
+  res.floor("sparse L'DL level-schedule clauses", nldl, 2)
   nord = r_race.check_order_arbitrary_lists(res, all_lcs, scope)
   res.floor("positional reads of slot-ordered lists", nord, 40)
   nsnap = r_race.check_wake_snapshot(res, scope)
@@ -24,7 +28,7 @@ def run(db, res, tier):
   res.floor("plain writes classified", nw, 2000)
   res.floor("reads of arrays written in the same launch", nr, 1800)
   res.floor("stores of atomic-derived values", na, 30)
-  res.rule_text = "R-RACE: (1) every non-atomic write lands on a cell determined by the writing thread (thread indices occur injectively - directly, through an injective address map, a loop over such an address, an atomically allocated slot, a flattened index, or a `tid == invariant` pin) or stores a thread-invariant value; (2) a launch that writes an array (incl. through aliased parameters) reads it only at cells the reading thread owns; (3) results of atomics are stored only into integer address/id arrays; everything else is a tabled idiom with its argument; (6) a dimension filled through atomically allocated slots is never read at a fixed non-zero offset from a loop variable / thread index (neighbour reads make the result depend on slot order); (5) in the sleep waking kernels every read of the racy tree_asleep array outside the walker and off the thread's own cell is dominated by a test of a snapshot array (not written in the launch) at the same cell"
+  res.rule_text = "R-RACE: (1) every non-atomic write lands on a cell determined by the writing thread (thread indices occur injectively - directly, through an injective address map, a loop over such an address, an atomically allocated slot, a flattened index, or a `tid == invariant` pin) or stores a thread-invariant value; (2) a launch that writes an array (incl. through aliased parameters) reads it only at cells the reading thread owns; (3) results of atomics are stored only into integer address/id arrays; everything else is a tabled idiom with its argument; (8) m.body_branches is built from whole root-to-leaf chains (the loop variable of the branch loop is appended unmodified); (7) the sparse L'DL updates are grouped into launches by the tree depth of the dof whose row the kernel accumulates into (component 0 of the update triple); (6) a dimension filled through atomically allocated slots is never read at a fixed non-zero offset from a loop variable / thread index (neighbour reads make the result depend on slot order); (5) in the sleep waking kernels every read of the racy tree_asleep array outside the walker and off the thread's own cell is dominated by a test of a snapshot array (not written in the launch) at the same cell"
   res.explanation = (
     "Decides freedom from write-write and read-write conflicts between distinct threads of every launch reachable from step/forward/reset_data/get_state/set_state, with the aliasing induced by the launch bindings. "
     "`arr[i] += v` is an atomic in Warp (codegen lowers array augmented assignment to atomic_add) and is treated as such. "
@@ -38,7 +42,7 @@ def run(db, res, tier):
     "READ_IDIOMS": {f"{k[0]}|{k[1]}": v[0] for k, v in race_tables.READ_IDIOMS.items()},
   }
   res.assumptions += [
-    "Model.body_branches holds complete root-to-leaf chains (built by put_model on the host; not checked statically)",
+    "Model.body_branches holds complete root-to-leaf chains: the construction in put_model is checked only structurally (R-RACE.8: each branch appended whole); that ancestor_chain() really walks to the root is not",
     "sleep-cycle waking kernels (_wake_*) are an unverified idiom: their final countdown per tree can depend on arrival order; sleeping is outside this verdict",
     "Warp tile primitives and block-cooperative kernels are schedule-independent per block",
     "Model address arrays (*adr) map distinct elements to disjoint ranges (MuJoCo compiler invariant)",
